@@ -45,11 +45,11 @@ NODE_MAIN = os.path.join(os.path.dirname(os.path.abspath(__file__)), "node_main.
 PYTHON = sys.executable
 
 # the hash seeds a tape can choose from (index 0 and 1 are the shrink targets)
-HASH_SEEDS = (0, 1, 4242, 31337, 2718281, 99)
+HASH_SEEDS = (0, 1, 4242, 31337)
 
 START_TIMEOUT = float(os.environ.get("VERIF_NODE_START_TIMEOUT", "240"))
 CALL_TIMEOUT = float(os.environ.get("VERIF_NODE_CALL_TIMEOUT", "90"))
-MAX_LIVE = 6
+MAX_LIVE = 5
 
 
 class NodeDied(HarnessError):
